@@ -16,6 +16,7 @@ double nondet_vp_undef_double(void);
 #define VP_ASSERT(c, m) __CPROVER_assert((c), m)
 #define VP_ASSUME(c) __CPROVER_assume(c)
 #define VP_REACH(m) __CPROVER_assert(0, m)
+#define VP_SAME_OBJECT(p, q) __CPROVER_same_object((const void *)(p), (const void *)(q))
 #else
 #include <stdio.h>
 #include <stdlib.h>
@@ -29,6 +30,7 @@ void vp_native_assume(int c);
 #define VP_ASSERT(c, m) vp_native_assert((c), m)
 #define VP_ASSUME(c) vp_native_assume(c)
 #define VP_REACH(m) ((void)0)
+#define VP_SAME_OBJECT(p, q) 0
 #endif
 /* LLVM computes pointer differences on integers (always defined, also speculatively for unrelated pointers); the C pointer
    subtraction is used only where it is defined (same object), so that CBMC evaluates it on offsets */
